@@ -42,6 +42,8 @@ ManifestLoaderActions::~ManifestLoaderActions() {
 /// For simplicity, we just directly implement the parser actions interface.
 class ManifestLoader::ManifestLoaderImpl: public ParseActions {
   struct IncludeEntry {
+    /// The absolute path the file was read from.
+    std::string path;
     /// An owning reference to the buffer consumed by the parser.
     std::unique_ptr<llvm::MemoryBuffer> data;
     /// The parser for the file.
@@ -49,9 +51,10 @@ class ManifestLoader::ManifestLoaderImpl: public ParseActions {
     /// The active scope.
     Scope& scope;
 
-    IncludeEntry(std::unique_ptr<llvm::MemoryBuffer> data,
+    IncludeEntry(StringRef path, std::unique_ptr<llvm::MemoryBuffer> data,
                  std::unique_ptr<Parser> parser, Scope& scope)
-      : data(std::move(data)), parser(std::move(parser)), scope(scope) {}
+      : path(path), data(std::move(data)), parser(std::move(parser)),
+        scope(scope) {}
   };
 
   StringRef workingDirectory;
@@ -101,6 +104,15 @@ public:
       return false;
     }
 
+    // A file that is still being loaded cannot be entered again: it would
+    // include itself forever (and, included twice, 2^depth times).
+    for (const auto& entry: includeStack) {
+      if (forToken && entry.path == path.str()) {
+        error("recursive include", *forToken);
+        return false;
+      }
+    }
+
     // Load the file data.
     StringRef forFilename = includeStack.empty() ? filename :
         getCurrentFilename();
@@ -111,8 +123,8 @@ public:
 
     // Push a new entry onto the include stack.
     auto parser = llvm::make_unique<Parser>(buffer->getBuffer(), *this);
-    includeStack.emplace_back(std::move(buffer), std::move(parser),
-                              scope);
+    includeStack.emplace_back(path.str(), std::move(buffer),
+                              std::move(parser), scope);
 
     return true;
   }
